@@ -76,6 +76,9 @@ def transfer(kind, sz, value, sub, latency, junk, res, desc, sz_in=None,
             objs[index, sub] = value
     srv = bus.SdoServer(objs, mbx_in_size=sz_in, mbx_out_size=sz,
                         strict_size=not lenient)
+    # an earlier session (another program, a restart) has left the
+    # terminal's mailbox counter at some value
+    srv.last_counter = desc.get("last_counter", 0)
     t.mbx_handler = srv.handle
     lat = iter(latency)
     t.mbx_resp_latency = lambda: next(lat, 0)
@@ -293,6 +296,7 @@ def run_shard(params):
                                    ["foe", "eoe", "soe"]])
                 desc = dict(kind=kind, mailbox=sz, length=ln, sub=sub,
                             latency=latency, junk=junk,
+                            last_counter=rng.choice([0, 0, 1, 1, 2, 7]),
                             value=value.hex()[:64])
                 res.case(desc, nontrivial=ln >= 1)
                 transfer(kind, sz, value, sub, latency, junk, res, desc)
